@@ -425,8 +425,17 @@ def hazards(t, N=None, ratio=16):
                 pass
         if h == "*" and len(x) == 3:
             for z, o in ((x[1], x[2]), (x[2], x[1])):
-                if isinstance(z, tuple) and len(z) == 3 and z[0] == "c" and z[1] in ("f64", "int") and z[2] == 0 and \
-                        any(isinstance(y, tuple) and y and y[0] in ("/", "sqrt", "ucall", "ln", "exp", "powi", "powf") for y in subterms(o)):
+                def risky(y):
+                    if not (isinstance(y, tuple) and y):
+                        return False
+                    if y[0] == "/" and len(y) == 3:
+                        # a quotient by an integer count converted to f64 (`1.0 / count as f64`) is C08-V1's business (count >= 1)
+                        d_ = y[2]
+                        while isinstance(d_, tuple) and d_ and d_[0] == "gamma":
+                            d_ = d_[2] if (isinstance(d_[2], tuple) and d_[2][:1] == ("i2f",)) else d_[3]
+                        return not (isinstance(d_, tuple) and d_[:1] == ("i2f",))
+                    return y[0] in ("sqrt", "ucall", "ln", "exp", "powi", "powf")
+                if isinstance(z, tuple) and len(z) == 3 and z[0] == "c" and z[1] in ("f64", "int") and z[2] == 0 and any(risky(y) for y in subterms(o)):
                     out.append("a product with the literal 0 whose other factor may be non-finite (0 * inf is NaN, not 0)")
         for y in x[1:]:
             visit(y, parent_additive=((h in ("+", "-", "neg") or (h in CMP and len(x) == 3)) and isinstance(y, tuple) and y and y[0] in ("+", "-", "neg")))
